@@ -1,0 +1,21 @@
+//go:build verif
+
+// Contracts for package internal/eheap (comment-only; read by /verif/cmd/govc).
+package eheap
+
+// ASSUMED interface of the expiry heap as a set of item ids (ghost map gmap("items", eh), keys =
+// item ids).  The heap itself (internal/heap over container/heap, shared mutable entries) is
+// outside the generator's pointer model; C25 is not claimed.
+//@ func Item.GetID
+//@   pure
+//@   opt uf item_id
+//@ func (*ExpiryHeap).Add
+//@   trusted
+//@   noframe
+//@   modifies gmap("items", eh)[]
+//@   ensures has(gmap("items", eh), str(Item.GetID(item)))
+//@   ensures forall q string :: q != str(Item.GetID(item)) ==> has(gmap("items", eh), q) == old(has(gmap("items", eh), q))
+//@ func (*ExpiryHeap).Has
+//@   trusted
+//@   noframe
+//@   ensures result == has(gmap("items", eh), str(item))
